@@ -83,17 +83,8 @@ namespace SamlVerif.IdP
 /-- `getSPEncryptionCert`'s selection never panics: a key descriptor without certificate is an error -/
 theorem C09_selectEncCert_total (keys : List KeyDesc) (w : String) : selectEncCert keys ≠ .panic w := by
   unfold selectEncCert
-  split
-  · split
-    · simp
-    · split
-      · split
-        · split <;> simp
-        · simp
-      · simp
-  · split
-    · split <;> simp
-    · simp
+  repeat' split
+  all_goals simp
 
 /-- request validation is total (C05_total, restated for the list of entry points) -/
 theorem C09_validate_total (cfg : Cfg) (now : Int) (reg : String → Lookup) (req : AuthnRequestS) (w : String) :
